@@ -91,6 +91,19 @@ type travWorld struct {
 	pendingAtStop []*tpending
 	apiBusy       int
 	allHonest     bool
+	returns       int       // DoQuery calls that have returned
+	stopCalledW   bool      // copy of stopCalled readable by the watcher (under mu)
+	lastHit       *stallHit // what a blocked consumer saw at the instant it received the stall signal
+}
+
+// stallHit is the lookup's state, as far as the harness keeps it, at the
+// instant a consumer blocked on Stalled() received the signal. The verdict is
+// formed later (at the driver's next observation), but about this instant.
+type stallHit struct {
+	inDo, npend int
+	returns     int
+	unq         map[string]bool // learned and not yet queried -> handed over by an API call that had returned
+	forms       map[string]int  // ... and how many forms (ids) of that address were known then
 }
 
 type learnedC struct {
@@ -134,6 +147,7 @@ func (tw *travWorld) doQuery(ctx context.Context, addr krpc.NodeAddr) traversal.
 	res := <-p.ch
 	tw.mu.Lock()
 	tw.inDo--
+	tw.returns++
 	tw.mu.Unlock()
 	return res
 }
@@ -414,9 +428,10 @@ func trav(r *Run, focus string) {
 	op := tw.op
 	r.Logf("start target=%s N=%d K=%d alpha=%d nf=%d df=%d", hex8(tw.target[:]), N, tw.K, tw.A, tw.nfKind, tw.dfKind)
 
+	forceFresh := false
 	mkBatch := func(label string) []types.AddrMaybeId {
 		var b []types.AddrMaybeId
-		if label == "late" && ch.Chance(1, 2, "late.fresh") {
+		if label == "late" && (forceFresh || ch.Chance(1, 2, "late.fresh")) {
 			// a contact nobody in the graph knows, close to the target: it must be queried
 			n := &tnode{idx: len(tw.nodes), addr: mkAddr(), beh: 1, tok: 0}
 			n.astr = addrKey(n.addr)
@@ -503,6 +518,7 @@ func trav(r *Run, focus string) {
 		tw.stopCalled = true
 		tw.pendingAtStop = tw.sortedPending()
 		tw.mu.Lock()
+		tw.stopCalledW = true
 		tw.apiBusy++
 		tw.mu.Unlock()
 		r.Logf("stop pending=%d", len(tw.pendingAtStop))
@@ -549,11 +565,29 @@ func trav(r *Run, focus string) {
 	if watcher {
 		r.Go("watcher", func() any {
 			for {
+				// Either signalling style is accepted: a value per receive while stalled and a
+				// closed channel once the run loop has ended, or a channel that is closed
+				// while stalled. The run loop only ends after Stop, which the driver calls.
 				_, ok := <-op.Stalled()
 				if !ok {
-					watchClosed.Store(true)
-					return nil
+					tw.mu.Lock()
+					ended := tw.stopCalledW
+					tw.mu.Unlock()
+					if ended {
+						watchClosed.Store(true)
+						return nil
+					}
 				}
+				tw.mu.Lock()
+				h := &stallHit{inDo: tw.inDo, npend: len(tw.pending), returns: tw.returns, unq: map[string]bool{}, forms: map[string]int{}}
+				for k, l := range tw.learned {
+					if tw.queried[k] == 0 {
+						h.unq[k] = tw.apiLearned[k]
+						h.forms[k] = len(l.ami)
+					}
+				}
+				tw.lastHit = h
+				tw.mu.Unlock()
 				watchHit.Store(true)
 				r.Wake()
 				if _, open := <-watchAck; !open {
@@ -632,7 +666,19 @@ func trav(r *Run, focus string) {
 	checkStallSafety := func() { // C03 at the moment a receive from Stalled() succeeded
 		tw.mu.Lock()
 		inDo, npend := tw.inDo, len(tw.pending)
+		var hit *stallHit
+		if tw.viaWatcher {
+			// judged about the instant the blocked consumer received the signal
+			hit, tw.lastHit = tw.lastHit, nil
+			if hit != nil {
+				inDo, npend = hit.inDo, hit.npend
+			}
+		}
+		returnsNow := tw.returns
 		tw.mu.Unlock()
+		if tw.viaWatcher && hit == nil {
+			return // Stalled() was closed (the lookup ended): nothing to judge
+		}
 		if inDo > 0 || npend > 0 {
 			r.Violate("stalled-with-query-in-flight", "Stalled() fired with %d DoQuery call(s) in flight", inDo)
 			return
@@ -648,6 +694,9 @@ func trav(r *Run, focus string) {
 				}
 			}
 		}
+		if hit != nil && full && hit.returns != returnsNow {
+			return // queries returned since: the result set of that instant is gone (rare)
+		}
 		tw.mu.Lock()
 		defer tw.mu.Unlock()
 		var ks []string
@@ -656,18 +705,26 @@ func trav(r *Run, focus string) {
 		}
 		sort.Strings(ks)
 		for _, k := range ks {
-			if tw.queried[k] > 0 {
+			if hit != nil {
+				if _, unq := hit.unq[k]; !unq {
+					continue
+				}
+			} else if tw.queried[k] > 0 {
 				continue
 			}
 			l := tw.learned[k]
-			for _, a := range l.ami {
+			forms := l.ami
+			if hit != nil {
+				forms = forms[:hit.forms[k]] // the forms known at that instant
+			}
+			for _, a := range forms {
 				if !nfOK(a) {
 					continue
 				}
 				// A consumer blocked on Stalled() can be handed an offer the run loop computed
 				// before an AddNodes call that has since returned (known finding, DESIGN §12.3):
 				// that history gets its own class so that every other cause is still reported.
-				stale := tw.viaWatcher && tw.apiLearned[k]
+				stale := hit != nil && hit.unq[k]
 				if stale {
 					// Either the known stale offer (the run loop has been woken by the addition
 					// and will query the contact next) or a real failure to ever query it: decided
@@ -931,6 +988,16 @@ func trav(r *Run, focus string) {
 			}
 			if lateLeft == 0 || ch.Chance(1, 3, "finish") {
 				break
+			}
+			if ch.Chance(1, 2, "late.atstall") {
+				// a fresh close contact handed over while the lookup sits stalled with
+				// nothing in flight: only the addition itself can wake the run loop
+				lateLeft--
+				r.Probe("late-addnodes")
+				r.Probe("late-add-at-stall")
+				forceFresh = true
+				addNodes("late", mkBatch("late"))
+				forceFresh = false
 			}
 		}
 	}
